@@ -140,7 +140,7 @@ class Gen(object):
         if self.chance(self.p_check):
             r['check_with'] = self.checker()
         if depth > 0 and self.chance(self.p_logical):
-            self.logical(r, depth - 1, siblings)
+            self.logical(r, depth - 1, siblings, kind)
         if not validation_only and self.chance(self.p_norm):
             self.norm_rules(r, siblings, no_rename)
         for k in r:
@@ -242,7 +242,7 @@ class Gen(object):
         if not validation_only and self.chance(self.p_norm):
             r['coerce'] = self.coercer(for_keys=True)
         if self.chance(0.08):
-            self.logical(r, 0, ())
+            self.logical(r, 0, (), 'str')
         return r
 
     def allow_unknown(self, depth, validation_only=False):
@@ -292,10 +292,64 @@ class Gen(object):
             return one()
         return [one() for _ in range(self.r.randint(0, 3))]
 
-    def logical(self, r, depth, siblings):
+    def light_def(self, kind, siblings):
+        """a small definition without its own type, fitting the field's kind (so that it often validates)"""
+        d = {}
+        if kind in ('int', 'num'):
+            if self.chance(0.6):
+                d['min'] = self.pick([-2, -1, 0, 1])
+            if self.chance(0.4):
+                d['max'] = self.pick([2, 3, 5, 10])
+            if self.chance(0.3):
+                d['allowed'] = self.some(INTS, 2, 5)
+            if self.chance(0.2):
+                d['forbidden'] = self.some(INTS, 1, 2)
+        elif kind == 'str':
+            if self.chance(0.5):
+                d['regex'] = self.pick(REGEXES)
+            if self.chance(0.4):
+                d['minlength'] = self.r.randint(0, 2)
+            if self.chance(0.3):
+                d['maxlength'] = self.r.randint(2, 4)
+            if self.chance(0.3):
+                d['allowed'] = self.some(STRS, 3, 8)
+        elif kind == 'list':
+            if self.chance(0.5):
+                d['minlength'] = self.r.randint(0, 2)
+            if self.chance(0.4):
+                d['maxlength'] = self.r.randint(1, 3)
+            if self.chance(0.3):
+                d['schema'] = {'type': self.pick(['integer', 'string', ['integer', 'string']])}
+        elif kind == 'dict':
+            if self.chance(0.5):
+                d['maxlength'] = self.r.randint(1, 3)
+            if self.chance(0.4):
+                d['schema'] = {k: self.pick([{}, {'type': 'integer'}, {'required': True}, {'nullable': True}])
+                               for k in self.some(SUBKEYS[:4], 1, 2)}
+                if self.chance(0.5):
+                    d['allow_unknown'] = self.chance(0.7)
+            if self.chance(0.3):
+                d['valuesrules'] = {'type': self.pick(['integer', 'string', ['integer', 'string', 'list']])}
+        else:
+            if self.chance(0.5):
+                d['type'] = self.pick(SCALAR_TYPES + ['list', 'dict'])
+            if self.chance(0.3):
+                d['nullable'] = True
+        if siblings and self.chance(0.15):
+            d['dependencies'] = self.dependencies(siblings)
+        if self.chance(0.1):
+            d['check_with'] = self.checker()
+        return d
+
+    def logical(self, r, depth, siblings, kind='any'):
         for op in self.some(['anyof', 'allof', 'noneof', 'oneof'], 1, 2):
-            r[op] = [self.rules(depth, siblings=siblings, validation_only=True)
-                     for _ in range(self.r.randint(0, 3))]
+            defs = []
+            for _ in range(self.r.randint(0, 3)):
+                if self.chance(0.65):
+                    defs.append(self.light_def(kind, siblings))
+                else:
+                    defs.append(self.rules(depth, siblings=siblings, validation_only=True))
+            r[op] = defs
             self.features.add(op)
 
     def norm_rules(self, r, siblings, no_rename):
